@@ -16,7 +16,6 @@ use crate::proto::*;
 use hpo::annotations::AnnotationId;
 use hpo::matrix::Matrix;
 use hpo::similarity::{CachedSimilarity, GroupSimilarity, Similarity, SimilarityCombiner, StandardCombiner};
-use hpo::term::HpoGroup;
 use hpo::{HpoSet, HpoTerm};
 
 #[derive(Clone, Copy)]
@@ -184,8 +183,8 @@ pub fn exec(it: &mut Interp, toks: &[&str], out: &mut Vec<String>) -> bool {
                 out.push("noslot".to_string());
                 return true;
             };
-            let sa = HpoSet::new(o, HpoGroup::from(a.clone()));
-            let sb = HpoSet::new(o, HpoGroup::from(bv.clone()));
+            let sa = HpoSet::new(o, crate::ext::mk_group(&a));
+            let sb = HpoSet::new(o, crate::ext::mk_group(&bv));
             let s1 = sa.similarity(&sb, tab, comb);
             out.push(format!("SS {}", f32bits(s1)));
             let mut fails: Vec<String> = vec![];
@@ -336,8 +335,8 @@ pub fn exec(it: &mut Interp, toks: &[&str], out: &mut Vec<String>) -> bool {
             let mut line = "CS".to_string();
             let mut fails: Vec<String> = vec![];
             for (n, (a, b)) in queries.iter().enumerate() {
-                let sa = HpoSet::new(o, HpoGroup::from(a.clone()));
-                let sb = HpoSet::new(o, HpoGroup::from(b.clone()));
+                let sa = HpoSet::new(o, crate::ext::mk_group(&a));
+                let sb = HpoSet::new(o, crate::ext::mk_group(&b));
                 let s = cached.calculate(&sa, &sb);
                 let p = plain.calculate(&sa, &sb);
                 line.push(' ');
